@@ -35,6 +35,7 @@ def run(tier, seed):
             cx.sample({"kind": ev["sig"], "Q": core.dy(ev["Q"]), "mt": core.dy(ev["mt"]), "mb": core.dy(ev["mb"]), "mtau": core.dy(ev["mtau"])})
     cx.assumptions += ["composition is checked as m(Q_k)^2 = m(Q_{k-1}) m(Q_{k+1}) on geometric scale ladders",
                        "the boundary value of mt is only bracketed (0.8 mt_pole <= mt(mt_pole) <= mt_pole); mb has its boundary at mt_pole"]
+    cx.selftest_corruption("Trace_C20.tla", shards[0], lambda ev: ev["ckm"]["V_re00"] if ev["e"] == "Ckm" and ev["exc"] == "" and ev["cls"] == "inside" else None, "Unitary")
     return cx.finish(rule="random inputs per TLC-enumerated class (Cases.tla: C20Cases: Wolfenstein inside/edge/outside/non-finite, "
                           "angles, electroweak inputs, running-mass ladders incl. alpha_s at the edges, THDM running on/off); "
                           "distinct_nontrivial = distinct (event kind, case)")
